@@ -316,6 +316,41 @@ Theorem C07_pills_invisible :
 Proof. exact C07_pills_invisible_thm. Qed.
 Print Assumptions C07_pills_invisible.
 
+(** * C12 (last sentence) — the engine's lifecycle events are published for every occurrence *)
+
+(* [lifeev t]: the events published other than dead letters, in order.  They
+   are exactly what the delivery stream and the script determine
+   ([expected_c c 0 None (recvs_of t)], the configuration-level form of
+   ProcExec's [expected_events]): ActorInitializedEvent / ActorStartedEvent
+   after every Initialized / Started delivery whose handler returns;
+   at the Stopped delivery that follows a panicking delivery an
+   ActorRestartedEvent numbered 1, 2, 3, … while the budget lasts (none for an
+   InternalError), ActorMaxRestartsExceededEvent and ActorStoppedEvent when it
+   is spent; ActorStoppedEvent at any other Stopped delivery; nothing else,
+   nothing twice, in this order.  Dead letters are published only after
+   ActorStoppedEvent and nothing else follows it; ActorStoppedEvent has been
+   published iff the actor is unregistered at the end; every payload is
+   dead-lettered exactly as often as it was sent and not delivered. *)
+Theorem C12_lifecycle_events_published :
+  forall f c xs s t, stopped_safe c -> run f c xs = (s, t) -> out_of_fuel t = false ->
+  lifeev t = expected_c c 0 None (recvs_of t) /\
+  dead_after_stopped (events_of t) = true /\
+  registered s = negb (existsb (fun e => mevent_eqb e MStopped) (events_of t)) /\
+  (forall n, cntb n (user_payloads (recvs_of t)) + cntb n (dead_payloads (events_of t)) = cntb n (sends_of t)).
+Proof. exact C12_lifecycle_events_published_thm. Qed.
+Print Assumptions C12_lifecycle_events_published.
+
+(* [expected_c] on the configuration of a case is ProcExec's [expected_events] on its table *)
+Theorem C12_expected_events_of_table :
+  forall cs l k p, expected_events (c_table cs) (c_maxr cs) k p l = expected_c (cfg_of cs) k p l.
+Proof. exact expected_cfg_of. Qed.
+Print Assumptions C12_expected_events_of_table.
+
+Theorem C12_oracle_sound : forall c,
+  stopped_safe (cfg_of c) -> out_of_fuel (snd (model c)) = false -> oracle_c12 (selfcase c) = true.
+Proof. exact oracle_c12_sound. Qed.
+Print Assumptions C12_oracle_sound.
+
 (** * The oracles of ProcExec.v hold of every model run *)
 
 (* [selfcase c]: the case whose observation is the model's own projection.
